@@ -84,5 +84,31 @@ func SeekCommonAncestor(db objects.Store, commits ...[]byte) (baseCommit []byte,
 			return nil, fmt.Errorf("common ancestor commit not found")
 		}
 	}
-	return bases[0], nil
+	// with three or more commits the lock-step walk can settle on a commit that is not an
+	// ancestor of all of them: check, and otherwise search the history of the first commit
+	ok, err := ancestorOfAll(db, bases[0], commits)
+	if err != nil {
+		return nil, err
+	}
+	if ok {
+		return bases[0], nil
+	}
+	q, err := NewCommitsQueue(db, commits[:1])
+	if err != nil {
+		return nil, err
+	}
+	for {
+		sum, _, err := q.PopInsertParents()
+		if errors.Is(err, io.EOF) {
+			return nil, fmt.Errorf("common ancestor commit not found")
+		}
+		if err != nil {
+			return nil, err
+		}
+		if ok, err = ancestorOfAll(db, sum, commits); err != nil {
+			return nil, err
+		} else if ok {
+			return sum, nil
+		}
+	}
 }
